@@ -356,18 +356,18 @@ func (w *World) verifCheckInvariants() error {
 			}
 		}
 		if e.Indices != nil {
-			n := 0
 			for pos, a := range e.Archetypes.pointers {
 				if !a.HasRelation() {
 					continue
 				}
-				n++
 				if ip, ok := e.Indices[a]; !ok || ip != pos {
 					return fmt.Errorf("I6 cached filter %d removal index lacks/misplaces table %s (target %v) at %d", int(e.ID), verifMaskString(&a.Mask), a.RelationTarget, pos)
 				}
 			}
-			if n != len(e.Indices) {
-				return fmt.Errorf("I6 cached filter %d removal index has %d entries for %d relation tables", int(e.ID), len(e.Indices), n)
+			for a, ip := range e.Indices {
+				if ip < 0 || ip >= len(e.Archetypes.pointers) || e.Archetypes.pointers[ip] != a {
+					return fmt.Errorf("I6 cached filter %d removal index has a stale entry (position %d)", int(e.ID), ip)
+				}
 			}
 		}
 	}
